@@ -535,75 +535,10 @@ fn str_input(c: &StrCase) -> Value {
     json!({"kind": "literal", "level": c.level, "text": c.text, "text_hex": hex(&c.text), "expect": match c.valid { Some(true) => "accept", Some(false) => "reject", None => "" }})
 }
 
-/// classifier of string literals for known findings (computed from the input — text and level — only):
-/// the first escape of the literal whose handling is a known gap names the class
-pub fn string_class(text: &str, level: &str) -> Value {
-    let lv = STD_LEVELS.iter().find(|l| l.0 == level).map(|l| l.1).unwrap_or(5);
-    let b: Vec<char> = text.chars().collect();
-    if b.is_empty() || (b[0] != '"' && b[0] != '\'') {
-        return Value::Null;
-    }
-    let mut i = 1;
-    while i < b.len() {
-        if b[i] == '\\' && i + 1 < b.len() {
-            let e = b[i + 1];
-            if e.is_ascii_digit() {
-                let mut j = i + 1;
-                let mut v = 0u32;
-                while j < b.len() && j < i + 4 && b[j].is_ascii_digit() {
-                    v = v * 10 + b[j].to_digit(10).unwrap();
-                    j += 1;
-                }
-                if v > 255 {
-                    return json!("string-decimal-escape-above-255");
-                }
-                i = j;
-                continue;
-            }
-            if lv == 1 {
-                // Lua 5.1 takes `\x`, `\z`, `\u` literally; the lexer/checker treat them as in 5.2+
-                if e == 'x' || e == 'z' || e == 'u' {
-                    return json!("string-lua51-literal-escape");
-                }
-                i += 2;
-                continue;
-            }
-            if e == 'u' && lv >= 3 {
-                // well-formed: {hex+} with a value the level can encode
-                let max: u64 = if lv == 3 { 0x10FFFF } else { 0x7FFF_FFFF };
-                let mut ok = false;
-                if i + 2 < b.len() && b[i + 2] == '{' {
-                    let mut j = i + 3;
-                    let mut v: u64 = 0;
-                    let mut digits = 0;
-                    while j < b.len() && b[j].is_ascii_hexdigit() {
-                        v = (v * 16 + b[j].to_digit(16).unwrap() as u64).min(1 << 40);
-                        digits += 1;
-                        j += 1;
-                    }
-                    ok = digits > 0 && j < b.len() && b[j] == '}' && v <= max;
-                }
-                if !ok {
-                    return json!("string-malformed-unicode-escape");
-                }
-                i += 2;
-                continue;
-            }
-            if !"abfnrtvxz\\\"'\n\r".contains(e) {
-                return json!("string-unknown-escape");
-            }
-            i += 2;
-            continue;
-        }
-        i += 1;
-    }
-    Value::Null
-}
-
 fn check_strs(cases: &[StrCase], report: &mut Report, diag: &mut Diag, r55: &mut Ref55, seen: &mut HashSet<String>) {
     let mut reqs: Vec<String> = Vec::new();
     for c in cases {
-        reqs.push(format!("climb.strlex {}", hex(&c.text)));
+        reqs.push(format!("climb.strlex {} {}", level_of(c.level) as usize, hex(&c.text)));
     }
     let resps = run_driver(&reqs);
     let mut chk_reqs: Vec<String> = Vec::new();
@@ -640,7 +575,7 @@ fn check_strs(cases: &[StrCase], report: &mut Report, diag: &mut Diag, r55: &mut
             let src = format!("{EXPR_PREFIX}{tok}");
             let d = diag.syntax_errors(c.level, &src);
             let real = d.iter().any(|m| m.contains("escape sequence"));
-            chk_reqs.push(format!("climb.strcheck {}", hex(tok)));
+            chk_reqs.push(format!("climb.strcheck {} {}", level_of(c.level) as usize, hex(tok)));
             chk_idx.push((ci, real));
         }
         // ---- oracle
@@ -669,10 +604,10 @@ fn check_strs(cases: &[StrCase], report: &mut Report, diag: &mut Diag, r55: &mut
                 }
             }
             if valid && !d.is_empty() {
-                oracle_fail(report, json!({"input": str_input(c), "class": string_class(&c.text, c.level),
+                oracle_fail(report, json!({"input": str_input(c), "class": null,
                     "what": format!("valid {} literal ({}) reported as syntax error: {}", c.level, c.why, d[0])}));
             } else if !valid && d.is_empty() {
-                oracle_fail(report, json!({"input": str_input(c), "class": string_class(&c.text, c.level),
+                oracle_fail(report, json!({"input": str_input(c), "class": null,
                     "what": format!("invalid {} literal ({}) produces no syntax-error diagnostic", c.level, c.why)}));
             }
         }
@@ -895,6 +830,34 @@ pub fn run(args: &Args, report: &mut Report) {
         for (text, expect, why) in progen::soft_word_cases(lv) {
             report.count(&format!("softword_{}", expect.trim_end_matches('!')));
             check_program(lname, &text, expect, &why, true, report, &mut diag, &mut r55);
+        }
+    }
+    // 3c. the bundled standard-library annotation files must stay free of syntax-error diagnostics at every level
+    fn lua_files(dir: &std::path::Path, out: &mut Vec<std::path::PathBuf>) {
+        if let Ok(rd) = std::fs::read_dir(dir) {
+            let mut es: Vec<_> = rd.filter_map(|e| e.ok()).map(|e| e.path()).collect();
+            es.sort();
+            for p in es {
+                if p.is_dir() {
+                    lua_files(&p, out);
+                } else if p.extension().map(|x| x == "lua").unwrap_or(false) {
+                    out.push(p);
+                }
+            }
+        }
+    }
+    let mut std_files = Vec::new();
+    lua_files(std::path::Path::new("/repo/crates/emmylua_code_analysis/resources/std"), &mut std_files);
+    for path in &std_files {
+        let Ok(text) = std::fs::read_to_string(path) else { continue };
+        for level in ["Lua51", "Lua52", "Lua53", "Lua54", "Lua55", "LuaJIT2", "LuaJIT", "LuaJIT3"] {
+            report.evaluations += 1;
+            report.count("std_annotation_file_x_level");
+            let d = diag.syntax_errors(level, &text);
+            if let Some(first) = d.first() {
+                oracle_fail(report, json!({"input": {"kind": "std-file", "level": level, "path": path.to_string_lossy()}, "class": null,
+                    "what": format!("bundled std annotation file {} gets a syntax-error diagnostic at {level}: {first}", path.display())}));
+            }
         }
     }
     report.notes.push("reference acceptor: luars (Lua 5.5 compiler, compile only) for level 5.5; for 5.1-5.4 no reference binary exists in the sandbox, the generator emits only constructs of that level and injected errors are limited to mutations that are invalid in every version".into());
